@@ -1,0 +1,14 @@
+//go:build verif
+
+package diskpacked
+
+import "reflect"
+
+// VerifGateOccupancy reports how many slots of the package-level gates are
+// currently taken (0 at every quiescent point unless a slot leaked).
+func VerifGateOccupancy() int {
+	n := 0
+	n += reflect.ValueOf(statGate).Elem().Field(0).Len()
+	n += reflect.ValueOf(removeGate).Elem().Field(0).Len()
+	return n
+}
